@@ -373,6 +373,80 @@ def job_lookup(j, seed):
     return {'obligations': obs, 'candidates': cands, 'paths': len(paths)}
 
 
+def job_history(j, seed):
+    """A lookup answers from the table whatever callers did to the results of earlier lookups of the same name: one
+    lookup - arbitrary in-place edits of every quantity of its result - lookup again (inductive step: the cached entry is
+    the only state a lookup leaves behind)."""
+    edit = j
+    import dataclasses
+    from symex import core as C
+    from symsc import variable as V
+    from .symutil import fresh_run
+
+    sc, atoms, mat = _load()
+    fresh_run()
+    _CONV.clear()
+    obs, cands = [], []
+    case = {'kind': 'history', 'edit': edit}
+    cells = ['1.5', '0.25', '', '', '2.5', '0.5', '', '', '3.5', '0.75', '4.5', '1.25', '5.5', '1.5', '6.5', '1.75']
+    lines = [SymLine(['Zz', *['9.0', '0.1'] * 8]), SymLine(['Qq', *cells])]
+
+    def run():
+        atoms.importlib = FakeImportlib({'scattering_parameters.csv': lambda: FakeFile(lines)})
+        try:
+            atoms.ScatteringParams._cached_for_isotope.cache_clear()
+        except AttributeError:
+            pass
+        first = atoms.ScatteringParams.for_isotope('Qq')
+        snap = {}
+        for f_ in dataclasses.fields(first):
+            v = getattr(first, f_.name)
+            if isinstance(v, V.Variable):
+                snap[f_.name] = (v.value, v.variance, v.unit, v)
+                # the caller's edits: arbitrary new value / variance, scaling in place, or another unit label
+                if edit == 'value':
+                    v.value = C.sym_var(f'new_{f_.name}')
+                    if v.variance is not None:
+                        v.variance = C.sym_var(f'newvar_{f_.name}', sign='0+')
+                elif edit == 'inplace':
+                    v *= C.sym_var(f'k_{f_.name}', sign='+')
+                else:
+                    v.unit = 'm'
+            else:
+                snap[f_.name] = v
+        second = atoms.ScatteringParams.for_isotope('Qq')
+        return snap, second
+
+    paths = C.explore(run, max_paths=16)
+    for k, p in enumerate(paths):
+        if p.exc is not None or p.inconclusive:
+            obs.append({'name': f'history[{edit}]:path{k}', 'status': 'inconclusive' if p.inconclusive else 'violated', 'detail': str(p.inconclusive or repr(p.exc))[:200], 't': 0})
+            if p.exc is not None:
+                cands.append(('C20:history', case, repr(p.exc)[:100]))
+            continue
+        snap, second = p.value
+        nvar = 0
+        for name, was in snap.items():
+            now = getattr(second, name)
+            if not isinstance(was, tuple):
+                goal = C.B.const(now == was)
+            else:
+                nvar += 1
+                val, var, unit, obj = was
+                goal = C.B.const(isinstance(now, V.Variable) and now is not obj and now._buf.id != obj._buf.id and now.unit == unit and (now.variance is None) == (var is None))
+                if isinstance(now, V.Variable):
+                    goal = goal & (C.R.lift(now.value) == C.R.lift(val))
+                    if var is not None and now.variance is not None:
+                        goal = goal & (C.R.lift(now.variance) == C.R.lift(var))
+            ob = C.prove(f'history[{edit}]:path{k}:{name} of a later lookup is the tabulated one (value, uncertainty, unit; an object of its own)', goal, pc=p.pc)
+            obs.append(ob_dict(ob))
+            if ob.status != 'discharged':
+                cands.append(('C20:history', case, f'{name} of a later lookup of the same name follows the caller\'s edit of an earlier result'))
+        ob = C.prove(f'history[{edit}]:path{k}:quantities compared: {nvar}', C.B.const(nvar >= 4))
+        obs.append(ob_dict(ob))
+    return {'obligations': obs, 'candidates': cands, 'paths': len(paths)}
+
+
 def job_atom(j, seed):
     """Atom.for_isotope over fake tables: z and weight from the element row, mass only for specific isotopes, header lines skipped."""
     import z3
@@ -499,6 +573,7 @@ def run(chk):
     run_jobs(chk, job_row, list(range(8)))
     run_jobs(chk, job_lookup, [1, 2, 3])
     run_jobs(chk, job_atom, [0])
+    run_jobs(chk, job_history, ['value', 'inplace', 'unit'])
     run_jobs(chk, job_attenuation, ['float64', 'float32', 'int64'])
     # complete enumeration of the bundled tables through the real lookups (real-scipp process); labelled enumeration, not a solver result
     import json, os, subprocess
@@ -539,6 +614,31 @@ def replay_real(case):
     bad = []
     kind = case['kind']
     base = importlib.resources.files('scippneutron.atoms')
+    if kind == 'history':
+        import dataclasses
+
+        for name in ('3He', 'V', 'H', '157Gd'):
+            ref = atoms.ScatteringParams.for_isotope(name)
+            keep = {f_.name: (v.copy() if isinstance(v := getattr(ref, f_.name), sc.Variable) else v) for f_ in dataclasses.fields(ref)}
+            first = atoms.ScatteringParams.for_isotope(name)
+            for f_ in dataclasses.fields(first):
+                v = getattr(first, f_.name)
+                if isinstance(v, sc.Variable):
+                    if case.get('edit') == 'value':
+                        v.value = 123.0
+                    elif case.get('edit') == 'inplace':
+                        v *= 0.5
+                    else:
+                        v.unit = 'm'
+            second = atoms.ScatteringParams.for_isotope(name)
+            for nm, was in keep.items():
+                now = getattr(second, nm)
+                same = sc.identical(now, was) if isinstance(was, sc.Variable) else now == was
+                if not same:
+                    bad.append(f'ScatteringParams.for_isotope({name!r}).{nm} is {now.value!r} {now.unit} after a caller edited an earlier result ({case.get("edit")}); table: {was.value!r} {was.unit}')
+            if bad:
+                break
+        return {'reproduced': bool(bad), 'detail': '; '.join(bad[:2])[:500]}
     if kind == 'row' and case.get('cells') is not None:
         from decimal import Decimal
 
